@@ -7,13 +7,10 @@ From SP Require Import Base.Result Base.Bytes Model.CdsSoftFloat Model.Cds.
 Import ListNotations.
 Open Scope Z_scope.
 
-(* _calculate_unix_seconds *)
+(* _calculate_unix_seconds: (unix_days * MS_PER_DAY + ms_of_day) / 1000.0 *)
 Definition cds_unix_seconds (t : cds) : fl :=
   let unix_days := convert_ccsds_days_to_unix_days (cdays t) in
-  let unix_seconds := unix_days * SECONDS_PER_DAY in
-  let seconds_of_day := fdiv (of_Z (cms t)) (of_Z 1000) in
-  if unix_seconds <? 0 then fsub (of_Z unix_seconds) seconds_of_day
-  else fadd (of_Z unix_seconds) seconds_of_day.
+  fdiv (of_Z (unix_days * MS_PER_DAY + cms t)) (of_Z 1000).
 
 (* CPython datetime.fromtimestamp(t, tz=utc), t >= 0 (C: _PyTime_ObjectToTimeval with
    ROUND_HALF_EVEN): modf, fraction * 1e6 rounded, round-half-even to an integer, carry.
@@ -51,20 +48,11 @@ Definition cds_datetime_us (t : cds) : Z :=
   let u := cds_unix_seconds t in
   if fneg u then us_timedelta_seconds u else us_fromtimestamp u.
 
-(* from_datetime on an aware datetime dt with dt - 1970-01-01T00:00Z =
-   timedelta(days = ud, seconds = sod, microseconds = us).
+(* the _unix_seconds cached by from_datetime(dt), dt - 1970-01-01T00:00Z =
+   timedelta(days = ud, seconds = sod, microseconds = us):
    dt.timestamp() = (dt - epoch).total_seconds() = total microseconds / 10^6 (int / int). *)
 Definition dt_timestamp (ud sod us : Z) : fl :=
   rne ((ud * 86400 + sod) * 1000000 + us) 1000000.
-
-Definition cds_from_datetime (ud sod us : Z) : cds :=
-  let unix_seconds := dt_timestamp ud sod us in
-  let full_unix_secs := ffloor unix_seconds in
-  let subsec_millis := ftrunc (fmul (fsub unix_seconds (of_Z full_unix_secs)) (of_Z 1000)) in
-  let unix_days := ftrunc (rne full_unix_secs SECONDS_PER_DAY) in
-  let secs_of_day := full_unix_secs mod SECONDS_PER_DAY in
-  {| cdays := convert_unix_days_to_ccsds_days unix_days;
-     cms := secs_of_day * 1000 + subsec_millis |}.
 
 (* ms_of_today(seconds_since_epoch) for an explicit float argument *)
 Definition cds_ms_of_today (s : fl) : Z :=
